@@ -2,7 +2,7 @@
    Statements only; proofs in Proofs/ValidFacts.v, Proofs/CardFacts.v, Proofs/C04.v.
    Slots hold ARBITRARY words (any N; in particular any u32); no hypothesis on them. *)
 From CKC Require Import Base.Prelude Base.SortN Spec.Layout.
-From CKC Require Import Model.Card Model.Hands Model.Five Proofs.CardFacts Proofs.ValidFacts Proofs.C04.
+From CKC Require Import Model.Card Model.Hands Model.Five Proofs.CardBase Proofs.FilterExact Proofs.ValidFacts Proofs.C04.
 Open Scope N_scope.
 
 (* a hand (any size, any words) is valid exactly when every slot is one of the 52 real card words and
